@@ -5,6 +5,7 @@ use slab::Slab;
 
 use super::{BridgeError, Request};
 use crate::bridge::request_serde::ResolveSerialized;
+use crate::core::ResolveError;
 use crate::Effect;
 
 #[derive(Debug, Clone, Copy, PartialEq, Eq, Serialize, Deserialize)]
@@ -62,8 +63,9 @@ impl ResolveRegistry {
         let entry = registry_lock.get_mut(id.0 as usize);
 
         let Some(entry) = entry else {
-            // FIXME return an Err instead of panicking here.
-            panic!("Request with {id:?} not found.");
+            // The id does not name a request the registry still holds (it has already been
+            // resolved, or was never issued): reject the response instead of panicking
+            return Err(BridgeError::ProcessResponse(ResolveError::Never));
         };
 
         let resolved = entry.resolve(body);
